@@ -18,6 +18,7 @@ func init() {
 		},
 		Assumptions: commonAssumptions,
 		Engines:     "PATH (edge cuts), GUARD, ROLE/MIRROR, WHO",
+		TagMatrix:   [][]string{{"integration"}},
 		Run:         runC05,
 	})
 }
